@@ -394,6 +394,16 @@ def gen_cases(rng, tier, n):
 
 
 def gen_one(rng):
+    if rng.random() < 0.05:
+        # a sparse source: the n-th result lies many years after the start of the open-ended slice
+        a = rng.randrange(0, 400 * DAY, 600) + rng.choice([0, 1_700_000_000 // DAY * DAY])
+        g = LGen(rng, a)
+        iv = rng.choice([400, 450, 731])
+        t = dict(op="per", freq="daily", interval=iv, dow=0, start=rng.choice([0, 9 * HOUR, 1800 * rng.randrange(0, 48)]),
+                 dur=rng.choice([1800, HOUR, 20 * HOUR, DAY, 3 * DAY]))
+        if rng.random() < 0.4:
+            t = {"op": rng.choice(["or", "sub"]), "l": t, "r": g.stored()}
+        return dict(tree=number(t), a=a, spans=[d * DAY for d in (3000, 6000, 9000)], n=rng.choice([2, 8, 10, 11, 12]))
     if True:
         a = rng.randrange(0, 400 * DAY, 600) + rng.choice([0, 0, 0, 1_700_000_000 // DAY * DAY])
         g = LGen(rng, a)
